@@ -49,6 +49,7 @@ type FuncContract struct {
 	FrameProps []string          // properties the frame obligations are reported under
 	NoFrame  bool                // no default frame obligation (function is allowed to modify anything it reaches)
 	Bounded  string              // name of the bounded stand-in harness test for this function, if any
+	Unverified string            // non-empty: the body is not verified (reason); the contract is an assumption, listed in evidence
 	Replay   string              // name of the harness test that replays a counterexample of this function
 }
 
@@ -80,6 +81,7 @@ type ContractSet struct {
 	Asserts     []AssertLine // raw SMT assertions placed after all declarations
 	Lemmas      []*Lemma
 	Files       []string
+	GlobalVals  map[string]string // "pkg/path.Name" -> SMT term: assumed value of a package-level variable of a dependency
 }
 
 type AssertLine struct {
@@ -100,7 +102,7 @@ func splitNames(s string) []string {
 }
 
 func NewContractSet() *ContractSet {
-	return &ContractSet{Funcs: map[string]*FuncContract{}, ModelFields: map[string]string{}, ModelFieldUses: map[string][]string{}}
+	return &ContractSet{Funcs: map[string]*FuncContract{}, ModelFields: map[string]string{}, ModelFieldUses: map[string][]string{}, GlobalVals: map[string]string{}}
 }
 
 // qualify turns a short function name used in a /repo contract file into the SSA name:
@@ -179,6 +181,9 @@ func (cs *ContractSet) LoadLines(path string, lines []string, lineNos []int, pkg
 				return fail(fmt.Errorf("usetype outside a lemma"))
 			}
 			curLemma.UseTypes = append(curLemma.UseTypes, rest)
+		case kw == "globalvalue": // globalvalue pkg/path.Name <smt term>
+			name, term, _ := strings.Cut(rest, " ")
+			cs.GlobalVals[name] = strings.TrimSpace(term)
 		case kw == "assert":
 			cs.Asserts = append(cs.Asserts, AssertLine{rest, append([]string{}, filePreludes...)})
 		case kw == "func" || kw == "trusted":
@@ -247,6 +252,8 @@ func (cs *ContractSet) LoadLines(path string, lines []string, lineNos []int, pkg
 			cur.Bounded = rest
 		case kw == "replay":
 			cur.Replay = rest
+		case kw == "unverified":
+			cur.Unverified = rest
 		case kw == "frame": // frame @C03,C08 : properties the frame obligations are reported under
 			tags, _ := parseTags(rest)
 			cur.FrameProps = tags
